@@ -47,7 +47,7 @@ theorem infl_link (g : Cfg) (e : Env) (k1 : K) (st1 : Rfc.St) (hcomp : k1.compre
     (if st1.comp then (rfcOf g e).infl st1.acc else Rfc.TInfl.ok st1.acc) =
       match inflOf g e k1 with
       | .ok b => .ok b
-      | .tooLarge => .big
+      | .tooLarge _ => .big
       | _ => .err := by
   unfold inflOf
   rw [hcomp, hacc]
@@ -57,7 +57,7 @@ theorem infl_link (g : Cfg) (e : Env) (k1 : K) (st1 : Rfc.St) (hcomp : k1.compre
 
 theorem run_agree (g : Cfg) (e : Env) (i0 : Nat) : ∀ (n : Nat) (s : S) (acts : List Act) (st : Rfc.St) (i : Nat) (evs : List Rfc.Ev),
     s.cache.length ≤ n → Within g s → Inv s.k st → acts = actsOf g e i0 evs → s.k.nwrites = i0 + nReplies evs →
-    Agree g e i0 (run g e s acts) (Rfc.run (rfcOf g e) st i evs (Rfc.decode (n + 1) s.cache)) := by
+    Agree g e i0 (run g e s acts) (RfcM.run (rfcOf g e) st i evs (RfcM.decode (n + 1) s.cache)) := by
   intro n
   induction n with
   | zero =>
@@ -65,22 +65,22 @@ theorem run_agree (g : Cfg) (e : Env) (i0 : Nat) : ∀ (n : Nat) (s : S) (acts :
     have hc : s.cache = [] := List.eq_nil_of_length_eq_zero (by omega)
     have hnf : nextFrame g s = .need := by simp [nextFrame, decodeHdr, hc]
     rw [run_unfold, hnf, hc]
-    simp only [Rfc.decode, Rfc.decode1, Rfc.run]
+    simp only [RfcM.decode, RfcM.decode1, RfcM.run]
     exact agree_idle g e i0 s acts evs _ st hi ha
   | succ n ih =>
     intro s acts st i evs hn hw hi ha hnw
     rw [run_unfold, nextFrame_eq_judge g s hw]
-    rw [Rfc.decode]
-    cases hd : Rfc.decode1 s.cache with
+    rw [RfcM.decode]
+    cases hd : RfcM.decode1 s.cache with
     | need =>
-      simp only [judge, Rfc.run]
+      simp only [judge, RfcM.run]
       exact agree_idle g e i0 s acts evs _ st hi ha
     | frame f total =>
       simp only
       cases hp : f.partial with
       | true =>
         -- trailing frame whose payload is not there yet
-        simp only [if_true, Rfc.run]
+        simp only [if_true, RfcM.run]
         cases hchk : Rfc.hdrCheck (rfcOf g e) st f with
         | none =>
           obtain ⟨ht, hsz, _, _⟩ := hdr_accept g e s.k st f hi hchk
@@ -224,12 +224,12 @@ theorem run_agree (g : Cfg) (e : Env) (i0 : Nat) : ∀ (n : Nat) (s : S) (acts :
                   · rw [actsOf_append, ha, hty]; rfl
                   · simp only [nReplies_append, nReplies, Nat.add_zero]
                     simpa [hnw1] using hnw
-              | tooLarge =>
+              | tooLarge hd =>
                 simp only
                 obtain ⟨k', er, hfm⟩ := finish_fail g e _ (by intro out h; rw [hr] at h; cases h)
                 rw [hfm]
                 exact agree_fail g e i0 _ _ acts _ evs _ _ ha
-              | failed =>
+              | failed hd =>
                 simp only
                 obtain ⟨k', er, hfm⟩ := finish_fail g e _ (by intro out h; rw [hr] at h; cases h)
                 rw [hfm]
@@ -264,7 +264,7 @@ theorem run_agree (g : Cfg) (e : Env) (i0 : Nat) : ∀ (n : Nat) (s : S) (acts :
                 exact agree_closed_reject g e i0 _ evs _ _ _ hrc.2 hacts (noDeliver_append_close a hnd)
               · have hb1 : (f.payload.length == 1) = false := by simp [h1]
                 simp only [hb1, Bool.false_eq_true, if_false]
-                by_cases hcc : Rfc.closeCodeOk (beDec (f.payload.take 2)) = true
+                by_cases hcc : RfcM.closeCodeOk (beDec (f.payload.take 2)) = true
                 · simp only [hcc, Bool.not_true, Bool.false_eq_true, if_false]
                   by_cases hu : utf8Valid (f.payload.drop 2) = true
                   · simp only [hu, Bool.not_true, Bool.false_eq_true, if_false]
@@ -277,7 +277,7 @@ theorem run_agree (g : Cfg) (e : Env) (i0 : Nat) : ∀ (n : Nat) (s : S) (acts :
                   · have hu' : utf8Valid (f.payload.drop 2) = false := by simpa using hu
                     simp only [hu', Bool.not_false, if_true]
                     exact agree_closed_reject g e i0 _ evs _ _ _ hrc.2 hacts (noDeliver_append_close a hnd)
-                · have hcc' : Rfc.closeCodeOk (beDec (f.payload.take 2)) = false := by simpa using hcc
+                · have hcc' : RfcM.closeCodeOk (beDec (f.payload.take 2)) = false := by simpa using hcc
                   simp only [hcc', Bool.not_false, if_true]
                   exact agree_closed_reject g e i0 _ evs _ _ _ hrc.2 hacts (noDeliver_append_close a hnd)
           · -- ping
